@@ -244,6 +244,8 @@ def offset_rules(facts, rep):
                 # the second subtraction written plainly under its own guard:  Some(s) if s >= offset => s - offset
                 fs_ = dominating_facts(gd, ex, bi)
                 good = any((x[0] == "Ge" and x[1] == ao[2] and x[2] == ao[3]) or (x[0] == "Le" and x[1] == ao[3] and x[2] == ao[2]) for x in fs_)
+            # ... on every path: no alternative (a constant picked by some heuristic about what lies at the unshifted offset) stands in for it
+            good = good and all(".central_directory_size" in tokens(a_) and "cde_start_pos" in show(a_) for a_ in alts(ao))
             good = good and ds[0] == "bin" and ds[1] == "Add" and ".central_directory_offset" in tokens(ds) and any(x == ao for x in walk(ds))
             good = good and ".number_of_files_on_this_disk" in tokens(cnt) or (good and ".number_of_files" in tokens(cnt))
             ok &= rep.check(bool(good), rule, "plain-path", where(gd, s["span"]),
